@@ -184,9 +184,9 @@ pub fn gen_e(t: &mut Tape, sc: &Scope, ty: Ty, depth: usize) -> E {
             7 => bin([Op::DEq, Op::DNe][t.pick(2)], gen_e(t, sc, Ty::L, d), gen_e(t, sc, Ty::L, d)),
             8 => {
                 // the same sub-expression on both sides
-                let ty2 = [Ty::L, Ty::N, Ty::R, Ty::S][t.pick(4)];
+                let ty2 = [Ty::L, Ty::N, Ty::R, Ty::S, Ty::F, Ty::F][t.pick(6)];
                 let x = gen_e(t, sc, ty2, d);
-                bin([Op::DEq, Op::DNe, Op::DEq][t.pick(3)], x.clone(), x)
+                bin([Op::DEq, Op::DNe, Op::DEq, Op::Eq][t.pick(4)], x.clone(), x)
             }
             9 => {
                 let x = gen_e(t, sc, Ty::L, d);
@@ -282,7 +282,7 @@ pub fn gen_e(t: &mut Tape, sc: &Scope, ty: Ty, depth: usize) -> E {
                 E::Rec(vec![RE::Short(name), RE::Pair("a".into(), gen_e(t, sc, Ty::N, d))])
             }
         },
-        Ty::F => match t.pick(7) {
+        Ty::F => match t.pick(8) {
             0 => leaf(t, sc, ty),
             1 | 2 | 3 => {
                 let mut sc2 = sc.clone();
@@ -304,6 +304,15 @@ pub fn gen_e(t: &mut Tape, sc: &Scope, ty: Ty, depth: usize) -> E {
                     let body = bin(Op::Add, gen_e(t, &sc2, Ty::N, d), bin(Op::Coalesce, E::Id(q.clone()), n(0.0)));
                     E::Lambda(vec![P::Req(p), P::Opt(q)], b(body))
                 }
+            }
+            7 => {
+                // a closure over a heap value (string or list): (v => x => x + len(v))(S | L)
+                let mut sc2 = sc.clone();
+                let (v, x) = (sc2.fresh_name("v"), sc2.fresh_name("x"));
+                sc2.nums.push(x.clone());
+                let inner = E::Lambda(vec![P::Req(x)], b(bin(Op::Add, gen_e(t, &sc2, Ty::N, d), call(E::BuiltIn("len".into()), vec![E::Id(v.clone())]))));
+                let arg = if t.pick(2) == 0 { gen_e(t, sc, Ty::S, d) } else { gen_e(t, sc, Ty::L, d) };
+                call(E::Lambda(vec![P::Req(v)], b(inner)), vec![arg])
             }
             5 => {
                 // curried: (k => x => N)(N)
